@@ -7,6 +7,7 @@ import (
 	"github.com/gmrtd/gmrtd/cms"
 	"github.com/gmrtd/gmrtd/cryptoutils"
 	"github.com/gmrtd/gmrtd/document"
+	"github.com/gmrtd/gmrtd/iso7816"
 )
 
 // C14 (chip-authentication evidence) — VerifyEvidence on arbitrary evidence. Elliptic-curve
@@ -102,4 +103,69 @@ func verifH_C14_ca_fields() {
 	} else {
 		verifAssert(res == nil, "no result with an error")
 	}
+}
+
+// ---- the counter of the captured exchange ----------------------------------------------------------
+
+var verifDecodeCalls int
+var verifDecodeSSC, verifDecodeArg []byte
+var verifDecodeStatus uint16
+
+func verifStubSmDecode(sm *iso7816.SecureMessaging, b []byte) (*iso7816.RApdu, error) {
+	verifDecodeCalls++
+	verifDecodeSSC = append([]byte(nil), sm.SSC()...)
+	verifDecodeArg = b
+	if verifBool() {
+		return nil, verifErr{}
+	}
+	return &iso7816.RApdu{Status: verifDecodeStatus}, nil
+}
+
+// verifH_C14_ca_counter: the captured response is authenticated under the counter value recorded
+// in the evidence - every byte of it - and under no other: at the (single) call of
+// SecureMessaging.Decode the counter is the recorded value minus one on the full counter width
+// (Decode increments before it verifies); success needs status 9000 from that call.
+func verifH_C14_ca_counter() {
+	doc := &document.Document{}
+	doc.Mf.Lds1.Dg14 = &document.DG14{SecInfos: &document.SecurityInfos{}}
+	n := verifParam("nssc")
+	w := 8
+	if verifParam("aes") == 1 {
+		w = 16
+	}
+	ev := &document.ChipAuthEvidence{TermPri: verifBytes(2), TermPubKey: verifBytes(1), SmRapdu: verifBytes(3), SmSsc: verifBytes(n)}
+	nz := byte(0)
+	for _, x := range ev.SmSsc {
+		nz |= x
+	}
+	verifAssume(n == 0 || nz != 0) // a captured counter is at least 1
+	verifDecodeCalls, verifDecodeStatus = 0, uint16(verifInt(0, 0xffff))
+	res, err := VerifyEvidence(doc, ev)
+	verifReach("returned")
+	if err != nil {
+		verifAssert(res == nil, "no result with an error")
+		return
+	}
+	verifReach("success")
+	verifAssert(res != nil && res.Success && res.Evidence == ev, "success returns the verified evidence")
+	verifAssert(verifDecodeCalls == 1 && verifDecodeStatus == 0x9000, "success only after the captured response was authenticated once with status 9000")
+	verifAssertSeqEqual(verifDecodeArg, ev.SmRapdu, "the captured response is what is authenticated")
+	// recorded counter minus one, big endian on w bytes (1 when no counter was recorded)
+	want := make([]byte, w)
+	if n == 0 {
+		want[w-1] = 1
+	} else {
+		copy(want[w-n:], ev.SmSsc)
+		borrow := 1
+		for i := w - 1; i >= 0; i-- {
+			v := int(want[i]) - borrow
+			borrow = 0
+			if v < 0 {
+				v += 256
+				borrow = 1
+			}
+			want[i] = byte(v)
+		}
+	}
+	verifAssertSeqEqual(verifDecodeSSC, want, "authenticated under the recorded counter (all of its bytes)")
 }
